@@ -10,7 +10,7 @@ written from the documentation, not from the control flow of the code:
     each hop resolved against the URL the answer came from (RFC 3986 §5 / RFC 9110 §10.2.2: relative to the
     *current* target URI), probing with body-less copies, then sends the request itself, body included, to the
     URL reached; an unparseable Location is an error. The walk is computed first, as a list of URLs;
-  * every API (`.send(ev)`, `.send_async()`, the command API — command.rs:553-575 documents `.middleware`
+  * every API (`.send(ev)`, `.send_async()`, the command API — command.rs:553-580 documents `.middleware`
     with the Redirect example) runs the same stack.
 -/
 import CruxVerif.Model.Mw
